@@ -173,6 +173,9 @@ def judge(ctx, c, stats):
             stats["guard_id_equals_message"] += 1
         return
     # no stated rule is violated
+    if c["guard"].startswith("err:") and kind == "ValueError":
+        stats["extra_guard_rejected_by_both"] = stats.get("extra_guard_rejected_by_both", 0) + 1
+        return
     if c["guard"].startswith("err:") and kind == "ok":
         # the guard model rejects (an extra guard of the code: duplicate rank in a rank-order, upper partition level in a
         # flatten tuple) but the code compiled: a guard disappeared from the code / the model no longer is the code
@@ -214,9 +217,9 @@ def run(ctx):
                 by_rule[rule].append({"base_kind": c["base_kind"], "intended": rule, "site": site, "data": d2})
                 per_rule[rule] += 1
     # thin out the over-represented rules, keeping every rule and every kind of site covered
-    limit = 70 if q else 1200
+    limit = 70 if q else 800
     injected = []
-    for rule in sl.RULES:
+    for rule in sl.RULES + sorted(r for r in by_rule if r.startswith("extra:")):
         l = by_rule.get(rule, [])
         rng.shuffle(l)
         # classes of sites (Einsum index and tensor names abstracted); every round takes one of each class, in random order
@@ -292,6 +295,7 @@ def run(ctx):
         "message_mismatch_samples": stats["message_mismatch_samples"][:5],
         "guard_model_error_equals_code_message": stats["guard_id_equals_message"],
         "no_rule_violated_and_compiled": stats["legal_compiled"],
+        "extra_guards_rejected_by_model_and_code": stats.get("extra_guard_rejected_by_both", 0),
         "no_rule_violated_but_rejected_by_code": dict(stats["legal_rejected_by_code"].most_common(12)),
         "no_rule_violated_but_code_crashed": dict(stats["legal_crashed_in_code"].most_common(12)),
         "disagreements_checked": len(allc),
